@@ -33,14 +33,16 @@ N_CASES = {"quick": 6400, "thorough": 160000}
 
 
 def pre_phantoms(a, k):
-    cvr_list = k.get("cvr_list")
-    contests = k.get("contests")
-    audit = k.get("audit")
+    pos = list(a[1:])  # a[0] is the class (classmethod)
+    audit = k.get("audit", pos[0] if len(pos) > 0 else None)
+    contests = k.get("contests", pos[1] if len(pos) > 1 else None)
+    cvr_list = k.get("cvr_list", pos[2] if len(pos) > 2 else None)
     st = next(iter(audit.strata.values()))
     return {"objs": list(cvr_list),
             "snap": [(c.id, copy.deepcopy(c.votes), c.phantom, c.pool, c.tally_pool, c.sample_num) for c in cvr_list],
             "bounds": {cid: con.cards for cid, con in contests.items()}, "use_style": st.use_style,
-            "max_cards": st.max_cards, "tally_pool": k.get("tally_pool"), "pool": k.get("pool", False),
+            "max_cards": st.max_cards, "tally_pool": k.get("tally_pool", pos[4] if len(pos) > 4 else None),
+            "pool": k.get("pool", pos[5] if len(pos) > 5 else False),
             "contests": contests}
 
 
@@ -119,10 +121,16 @@ def install(rec):
 
 def plan(tier, seed):
     shards = 16
-    return [{"n": N_CASES[tier] // shards, "shard": i} for i in range(shards)]
+    shards_ = [{"n": N_CASES[tier] // shards, "shard": i} for i in range(shards)]
+    # plus the repository's own test-suite run with this check's contracts armed (DESIGN 6.4)
+    return shards_ + [{"kind": "suite", "shard": 99}]
 
 
 def run_shard(spec, rec):
+    if spec.get("kind") == "suite":
+        from vlib import suite
+        suite.run_suite("checks.c08", rec)
+        return
     rng = random.Random(f"c08-{spec['seed']}-{spec['shard']}")
     for i in range(spec["n"]):
         es = E.gen_spec(rng, n_contests=rng.choice((1, 2, 3, 3, 4)))
